@@ -60,7 +60,7 @@ func c09Bytes(epoch time.Time, v c09Ver) []byte {
 		ms = vMatchersB()
 	}
 	sil := &pb.Silence{Id: v.id, MatcherSets: ms, StartsAt: ts(epoch.Add(v.start)), EndsAt: ts(epoch.Add(v.end)), UpdatedAt: ts(epoch.Add(v.upd)), Comment: v.n}
-	b, err := marshalMeshSilence(&pb.MeshSilence{Silence: sil, ExpiresAt: ts(epoch.Add(v.end + vRetention))})
+	b, err := vMarshalMesh(&pb.MeshSilence{Silence: sil, ExpiresAt: ts(epoch.Add(v.end + vRetention))})
 	if err != nil {
 		panic(err)
 	}
